@@ -670,6 +670,84 @@ theorem relForm22_unitary_symmetric (hGamma_1_0 : 0 ≤ Gamma_1_0) (hGamma_1_1 :
 
 end REL22
 
+/-! ### three and four poles (parametrisation only) -/
+
+section NR23
+variable (s m_1 m_2 m_3 Gamma_1_0 Gamma_1_1 Gamma_2_0 Gamma_2_1 Gamma_3_0 Gamma_3_1 gamma_1_0 gamma_1_1 gamma_2_0 gamma_2_1 gamma_3_0 gamma_3_1 : ℝ)
+
+local notation "K00" => nrK23_00 s m_1 m_2 m_3 Gamma_1_0 Gamma_1_1 Gamma_2_0 Gamma_2_1 Gamma_3_0 Gamma_3_1 gamma_1_0 gamma_1_1 gamma_2_0 gamma_2_1 gamma_3_0 gamma_3_1
+local notation "K01" => nrK23_01 s m_1 m_2 m_3 Gamma_1_0 Gamma_1_1 Gamma_2_0 Gamma_2_1 Gamma_3_0 Gamma_3_1 gamma_1_0 gamma_1_1 gamma_2_0 gamma_2_1 gamma_3_0 gamma_3_1
+local notation "K10" => nrK23_10 s m_1 m_2 m_3 Gamma_1_0 Gamma_1_1 Gamma_2_0 Gamma_2_1 Gamma_3_0 Gamma_3_1 gamma_1_0 gamma_1_1 gamma_2_0 gamma_2_1 gamma_3_0 gamma_3_1
+local notation "K11" => nrK23_11 s m_1 m_2 m_3 Gamma_1_0 Gamma_1_1 Gamma_2_0 Gamma_2_1 Gamma_3_0 Gamma_3_1 gamma_1_0 gamma_1_1 gamma_2_0 gamma_2_1 gamma_3_0 gamma_3_1
+
+/-- `nrK23` (3 poles): symmetric in the channel indices. -/
+theorem nrK23_symm : K01 = K10 := by
+  simp only [nrK23_01, nrK23_10]; try ring
+
+/-- `nrK23` (3 poles): every entry is real for non-negative widths. -/
+theorem nrK23_real (hGamma_1_0 : 0 ≤ Gamma_1_0) (hGamma_1_1 : 0 ≤ Gamma_1_1) (hGamma_2_0 : 0 ≤ Gamma_2_0) (hGamma_2_1 : 0 ≤ Gamma_2_1) (hGamma_3_0 : 0 ≤ Gamma_3_0) (hGamma_3_1 : 0 ≤ Gamma_3_1) :
+    IsRe K00 ∧ IsRe K01 ∧ IsRe K10 ∧ IsRe K11 := by
+  refine ⟨?_, ?_, ?_, ?_⟩ <;> simp only [nrK23_00, nrK23_01, nrK23_10, nrK23_11] <;> real_closure
+
+end NR23
+
+section NR24
+variable (s m_1 m_2 m_3 m_4 Gamma_1_0 Gamma_1_1 Gamma_2_0 Gamma_2_1 Gamma_3_0 Gamma_3_1 Gamma_4_0 Gamma_4_1 gamma_1_0 gamma_1_1 gamma_2_0 gamma_2_1 gamma_3_0 gamma_3_1 gamma_4_0 gamma_4_1 : ℝ)
+
+local notation "K00" => nrK24_00 s m_1 m_2 m_3 m_4 Gamma_1_0 Gamma_1_1 Gamma_2_0 Gamma_2_1 Gamma_3_0 Gamma_3_1 Gamma_4_0 Gamma_4_1 gamma_1_0 gamma_1_1 gamma_2_0 gamma_2_1 gamma_3_0 gamma_3_1 gamma_4_0 gamma_4_1
+local notation "K01" => nrK24_01 s m_1 m_2 m_3 m_4 Gamma_1_0 Gamma_1_1 Gamma_2_0 Gamma_2_1 Gamma_3_0 Gamma_3_1 Gamma_4_0 Gamma_4_1 gamma_1_0 gamma_1_1 gamma_2_0 gamma_2_1 gamma_3_0 gamma_3_1 gamma_4_0 gamma_4_1
+local notation "K10" => nrK24_10 s m_1 m_2 m_3 m_4 Gamma_1_0 Gamma_1_1 Gamma_2_0 Gamma_2_1 Gamma_3_0 Gamma_3_1 Gamma_4_0 Gamma_4_1 gamma_1_0 gamma_1_1 gamma_2_0 gamma_2_1 gamma_3_0 gamma_3_1 gamma_4_0 gamma_4_1
+local notation "K11" => nrK24_11 s m_1 m_2 m_3 m_4 Gamma_1_0 Gamma_1_1 Gamma_2_0 Gamma_2_1 Gamma_3_0 Gamma_3_1 Gamma_4_0 Gamma_4_1 gamma_1_0 gamma_1_1 gamma_2_0 gamma_2_1 gamma_3_0 gamma_3_1 gamma_4_0 gamma_4_1
+
+/-- `nrK24` (4 poles): symmetric in the channel indices. -/
+theorem nrK24_symm : K01 = K10 := by
+  simp only [nrK24_01, nrK24_10]; try ring
+
+/-- `nrK24` (4 poles): every entry is real for non-negative widths. -/
+theorem nrK24_real (hGamma_1_0 : 0 ≤ Gamma_1_0) (hGamma_1_1 : 0 ≤ Gamma_1_1) (hGamma_2_0 : 0 ≤ Gamma_2_0) (hGamma_2_1 : 0 ≤ Gamma_2_1) (hGamma_3_0 : 0 ≤ Gamma_3_0) (hGamma_3_1 : 0 ≤ Gamma_3_1) (hGamma_4_0 : 0 ≤ Gamma_4_0) (hGamma_4_1 : 0 ≤ Gamma_4_1) :
+    IsRe K00 ∧ IsRe K01 ∧ IsRe K10 ∧ IsRe K11 := by
+  refine ⟨?_, ?_, ?_, ?_⟩ <;> simp only [nrK24_00, nrK24_01, nrK24_10, nrK24_11] <;> real_closure
+
+end NR24
+
+section REL23
+variable (s m_1 m_2 m_3 Gamma_1_0 Gamma_1_1 Gamma_2_0 Gamma_2_1 Gamma_3_0 Gamma_3_1 gamma_1_0 gamma_1_1 gamma_2_0 gamma_2_1 gamma_3_0 gamma_3_1 rho0 rho1 rhoR_1_0 rhoR_1_1 rhoR_2_0 rhoR_2_1 rhoR_3_0 rhoR_3_1 ff_0 ff_1 ff0_1_0 ff0_1_1 ff0_2_0 ff0_2_1 ff0_3_0 ff0_3_1 : ℝ)
+
+local notation "K00" => relK23_00 s m_1 m_2 m_3 Gamma_1_0 Gamma_1_1 Gamma_2_0 Gamma_2_1 Gamma_3_0 Gamma_3_1 gamma_1_0 gamma_1_1 gamma_2_0 gamma_2_1 gamma_3_0 gamma_3_1 (rho0 : ℂ) (rho1 : ℂ) (rhoR_1_0 : ℂ) (rhoR_1_1 : ℂ) (rhoR_2_0 : ℂ) (rhoR_2_1 : ℂ) (rhoR_3_0 : ℂ) (rhoR_3_1 : ℂ) (ff_0 : ℂ) (ff_1 : ℂ) (ff0_1_0 : ℂ) (ff0_1_1 : ℂ) (ff0_2_0 : ℂ) (ff0_2_1 : ℂ) (ff0_3_0 : ℂ) (ff0_3_1 : ℂ)
+local notation "K01" => relK23_01 s m_1 m_2 m_3 Gamma_1_0 Gamma_1_1 Gamma_2_0 Gamma_2_1 Gamma_3_0 Gamma_3_1 gamma_1_0 gamma_1_1 gamma_2_0 gamma_2_1 gamma_3_0 gamma_3_1 (rho0 : ℂ) (rho1 : ℂ) (rhoR_1_0 : ℂ) (rhoR_1_1 : ℂ) (rhoR_2_0 : ℂ) (rhoR_2_1 : ℂ) (rhoR_3_0 : ℂ) (rhoR_3_1 : ℂ) (ff_0 : ℂ) (ff_1 : ℂ) (ff0_1_0 : ℂ) (ff0_1_1 : ℂ) (ff0_2_0 : ℂ) (ff0_2_1 : ℂ) (ff0_3_0 : ℂ) (ff0_3_1 : ℂ)
+local notation "K10" => relK23_10 s m_1 m_2 m_3 Gamma_1_0 Gamma_1_1 Gamma_2_0 Gamma_2_1 Gamma_3_0 Gamma_3_1 gamma_1_0 gamma_1_1 gamma_2_0 gamma_2_1 gamma_3_0 gamma_3_1 (rho0 : ℂ) (rho1 : ℂ) (rhoR_1_0 : ℂ) (rhoR_1_1 : ℂ) (rhoR_2_0 : ℂ) (rhoR_2_1 : ℂ) (rhoR_3_0 : ℂ) (rhoR_3_1 : ℂ) (ff_0 : ℂ) (ff_1 : ℂ) (ff0_1_0 : ℂ) (ff0_1_1 : ℂ) (ff0_2_0 : ℂ) (ff0_2_1 : ℂ) (ff0_3_0 : ℂ) (ff0_3_1 : ℂ)
+local notation "K11" => relK23_11 s m_1 m_2 m_3 Gamma_1_0 Gamma_1_1 Gamma_2_0 Gamma_2_1 Gamma_3_0 Gamma_3_1 gamma_1_0 gamma_1_1 gamma_2_0 gamma_2_1 gamma_3_0 gamma_3_1 (rho0 : ℂ) (rho1 : ℂ) (rhoR_1_0 : ℂ) (rhoR_1_1 : ℂ) (rhoR_2_0 : ℂ) (rhoR_2_1 : ℂ) (rhoR_3_0 : ℂ) (rhoR_3_1 : ℂ) (ff_0 : ℂ) (ff_1 : ℂ) (ff0_1_0 : ℂ) (ff0_1_1 : ℂ) (ff0_2_0 : ℂ) (ff0_2_1 : ℂ) (ff0_3_0 : ℂ) (ff0_3_1 : ℂ)
+
+/-- `relK23` (3 poles): symmetric in the channel indices. -/
+theorem relK23_symm : K01 = K10 := by
+  simp only [relK23_01, relK23_10]; try ring
+
+/-- `relK23` (3 poles): every entry is real for non-negative widths and (the guard) positive phase-space factors at `s` and at the pole masses. -/
+theorem relK23_real (hGamma_1_0 : 0 ≤ Gamma_1_0) (hGamma_1_1 : 0 ≤ Gamma_1_1) (hGamma_2_0 : 0 ≤ Gamma_2_0) (hGamma_2_1 : 0 ≤ Gamma_2_1) (hGamma_3_0 : 0 ≤ Gamma_3_0) (hGamma_3_1 : 0 ≤ Gamma_3_1) (hrho0 : 0 < rho0) (hrho1 : 0 < rho1) (hrhoR_1_0 : 0 < rhoR_1_0) (hrhoR_1_1 : 0 < rhoR_1_1) (hrhoR_2_0 : 0 < rhoR_2_0) (hrhoR_2_1 : 0 < rhoR_2_1) (hrhoR_3_0 : 0 < rhoR_3_0) (hrhoR_3_1 : 0 < rhoR_3_1) :
+    IsRe K00 ∧ IsRe K01 ∧ IsRe K10 ∧ IsRe K11 := by
+  refine ⟨?_, ?_, ?_, ?_⟩ <;> simp only [relK23_00, relK23_01, relK23_10, relK23_11] <;> real_closure
+
+end REL23
+
+section REL24
+variable (s m_1 m_2 m_3 m_4 Gamma_1_0 Gamma_1_1 Gamma_2_0 Gamma_2_1 Gamma_3_0 Gamma_3_1 Gamma_4_0 Gamma_4_1 gamma_1_0 gamma_1_1 gamma_2_0 gamma_2_1 gamma_3_0 gamma_3_1 gamma_4_0 gamma_4_1 rho0 rho1 rhoR_1_0 rhoR_1_1 rhoR_2_0 rhoR_2_1 rhoR_3_0 rhoR_3_1 rhoR_4_0 rhoR_4_1 ff_0 ff_1 ff0_1_0 ff0_1_1 ff0_2_0 ff0_2_1 ff0_3_0 ff0_3_1 ff0_4_0 ff0_4_1 : ℝ)
+
+local notation "K00" => relK24_00 s m_1 m_2 m_3 m_4 Gamma_1_0 Gamma_1_1 Gamma_2_0 Gamma_2_1 Gamma_3_0 Gamma_3_1 Gamma_4_0 Gamma_4_1 gamma_1_0 gamma_1_1 gamma_2_0 gamma_2_1 gamma_3_0 gamma_3_1 gamma_4_0 gamma_4_1 (rho0 : ℂ) (rho1 : ℂ) (rhoR_1_0 : ℂ) (rhoR_1_1 : ℂ) (rhoR_2_0 : ℂ) (rhoR_2_1 : ℂ) (rhoR_3_0 : ℂ) (rhoR_3_1 : ℂ) (rhoR_4_0 : ℂ) (rhoR_4_1 : ℂ) (ff_0 : ℂ) (ff_1 : ℂ) (ff0_1_0 : ℂ) (ff0_1_1 : ℂ) (ff0_2_0 : ℂ) (ff0_2_1 : ℂ) (ff0_3_0 : ℂ) (ff0_3_1 : ℂ) (ff0_4_0 : ℂ) (ff0_4_1 : ℂ)
+local notation "K01" => relK24_01 s m_1 m_2 m_3 m_4 Gamma_1_0 Gamma_1_1 Gamma_2_0 Gamma_2_1 Gamma_3_0 Gamma_3_1 Gamma_4_0 Gamma_4_1 gamma_1_0 gamma_1_1 gamma_2_0 gamma_2_1 gamma_3_0 gamma_3_1 gamma_4_0 gamma_4_1 (rho0 : ℂ) (rho1 : ℂ) (rhoR_1_0 : ℂ) (rhoR_1_1 : ℂ) (rhoR_2_0 : ℂ) (rhoR_2_1 : ℂ) (rhoR_3_0 : ℂ) (rhoR_3_1 : ℂ) (rhoR_4_0 : ℂ) (rhoR_4_1 : ℂ) (ff_0 : ℂ) (ff_1 : ℂ) (ff0_1_0 : ℂ) (ff0_1_1 : ℂ) (ff0_2_0 : ℂ) (ff0_2_1 : ℂ) (ff0_3_0 : ℂ) (ff0_3_1 : ℂ) (ff0_4_0 : ℂ) (ff0_4_1 : ℂ)
+local notation "K10" => relK24_10 s m_1 m_2 m_3 m_4 Gamma_1_0 Gamma_1_1 Gamma_2_0 Gamma_2_1 Gamma_3_0 Gamma_3_1 Gamma_4_0 Gamma_4_1 gamma_1_0 gamma_1_1 gamma_2_0 gamma_2_1 gamma_3_0 gamma_3_1 gamma_4_0 gamma_4_1 (rho0 : ℂ) (rho1 : ℂ) (rhoR_1_0 : ℂ) (rhoR_1_1 : ℂ) (rhoR_2_0 : ℂ) (rhoR_2_1 : ℂ) (rhoR_3_0 : ℂ) (rhoR_3_1 : ℂ) (rhoR_4_0 : ℂ) (rhoR_4_1 : ℂ) (ff_0 : ℂ) (ff_1 : ℂ) (ff0_1_0 : ℂ) (ff0_1_1 : ℂ) (ff0_2_0 : ℂ) (ff0_2_1 : ℂ) (ff0_3_0 : ℂ) (ff0_3_1 : ℂ) (ff0_4_0 : ℂ) (ff0_4_1 : ℂ)
+local notation "K11" => relK24_11 s m_1 m_2 m_3 m_4 Gamma_1_0 Gamma_1_1 Gamma_2_0 Gamma_2_1 Gamma_3_0 Gamma_3_1 Gamma_4_0 Gamma_4_1 gamma_1_0 gamma_1_1 gamma_2_0 gamma_2_1 gamma_3_0 gamma_3_1 gamma_4_0 gamma_4_1 (rho0 : ℂ) (rho1 : ℂ) (rhoR_1_0 : ℂ) (rhoR_1_1 : ℂ) (rhoR_2_0 : ℂ) (rhoR_2_1 : ℂ) (rhoR_3_0 : ℂ) (rhoR_3_1 : ℂ) (rhoR_4_0 : ℂ) (rhoR_4_1 : ℂ) (ff_0 : ℂ) (ff_1 : ℂ) (ff0_1_0 : ℂ) (ff0_1_1 : ℂ) (ff0_2_0 : ℂ) (ff0_2_1 : ℂ) (ff0_3_0 : ℂ) (ff0_3_1 : ℂ) (ff0_4_0 : ℂ) (ff0_4_1 : ℂ)
+
+/-- `relK24` (4 poles): symmetric in the channel indices. -/
+theorem relK24_symm : K01 = K10 := by
+  simp only [relK24_01, relK24_10]; try ring
+
+/-- `relK24` (4 poles): every entry is real for non-negative widths and (the guard) positive phase-space factors at `s` and at the pole masses. -/
+theorem relK24_real (hGamma_1_0 : 0 ≤ Gamma_1_0) (hGamma_1_1 : 0 ≤ Gamma_1_1) (hGamma_2_0 : 0 ≤ Gamma_2_0) (hGamma_2_1 : 0 ≤ Gamma_2_1) (hGamma_3_0 : 0 ≤ Gamma_3_0) (hGamma_3_1 : 0 ≤ Gamma_3_1) (hGamma_4_0 : 0 ≤ Gamma_4_0) (hGamma_4_1 : 0 ≤ Gamma_4_1) (hrho0 : 0 < rho0) (hrho1 : 0 < rho1) (hrhoR_1_0 : 0 < rhoR_1_0) (hrhoR_1_1 : 0 < rhoR_1_1) (hrhoR_2_0 : 0 < rhoR_2_0) (hrhoR_2_1 : 0 < rhoR_2_1) (hrhoR_3_0 : 0 < rhoR_3_0) (hrhoR_3_1 : 0 < rhoR_3_1) (hrhoR_4_0 : 0 < rhoR_4_0) (hrhoR_4_1 : 0 < rhoR_4_1) :
+    IsRe K00 ∧ IsRe K01 ∧ IsRe K10 ∧ IsRe K11 := by
+  refine ⟨?_, ?_, ?_, ?_⟩ <;> simp only [relK24_00, relK24_01, relK24_10, relK24_11] <;> real_closure
+
+end REL24
+
 /-! ### the regenerated parametrisation is an instance of the all-poles formula -/
 
 section
